@@ -19,7 +19,7 @@ from sim.world import Run
 
 ID = "C38"
 LEVEL = "exploration"
-RUNS = {"quick": 12000, "thorough": 200000}
+RUNS = {"quick": 12000, "thorough": 1200000}
 BUDGET = {"quick": 100.0, "thorough": 3300.0}
 RULE = ("one run = twin executions (with / without a seeded GA->DPT table) of one seeded device set (many remote value "
         "types) and telegram stream (payload lengths 1 bit..14 octets, incoming and outgoing, writes and responses); "
